@@ -71,7 +71,7 @@ def check_assembly(ctx, case):
     r0, p0, _ = impl.run_asm(asm.asm_op(case))
     rcase = dict(case)
     def rcw(w):
-        return str(impl.CircularRecord(impl.Seq(w), id="x").reverse_complement().seq)
+        return gen.rc(w)          # the other strand, spelt by the harness
     rcase["vector"] = dict(case["vector"], word=rcw(case["vector"]["word"]))
     rcase["mods"] = [dict(m, word=rcw(m["word"])) for m in case["mods"]]
     r1, p1, _ = impl.run_asm(asm.asm_op(rcase))
@@ -88,6 +88,22 @@ def check_assembly(ctx, case):
         if asm.canon_rot(str(p1.seq)) != asm.canon_rot(gen.rc(str(p0.seq))):
             ctx.fail("assembling the reverse complements yields {} which is not the reverse complement of {}".format(
                 p1.seq, p0.seq), case)
+    # the same with the records turned over by the library itself, everything carried along (features, annotations
+    # with the reference list, identifiers): documented inputs stay documented on the other strand
+    op0 = asm.asm_op(case)
+    v_, ms_, objs = impl.build_entities(op0[3], op0[4])
+    flipped = {}
+    for oid, ent in objs.items():
+        flipped[oid] = type(ent)(ent.record.reverse_complement(
+            id=True, name=True, description=True, features=True, annotations=True, letter_annotations=True, dbxrefs=True))
+    r2, p2, _ = impl.run_asm(op0, entities=(flipped[op0[3].oid], [flipped[m.oid] for m in op0[4]], flipped))
+    f2 = r2.split("\t")
+    if f2[0] != f1[0] or (f2[0] == "err" and f2[1] != f1[1]):
+        ctx.fail("records turned over with reverse_complement(features=True, annotations=True, …) give {} where the other "
+                 "strand spelt out gives {}".format(f2[:2], f1[:2]), case)
+    elif f2[0] == "ok" and asm.canon_rot(str(p2.seq)) != asm.canon_rot(str(p1.seq)):
+        ctx.fail("records turned over with reverse_complement(...) assemble to another product than the other strand "
+                 "spelt out", case)
     ctx.case({k: v for k, v in case.items() if k != "info"}, nontrivial=f0[0] == "ok")
     ctx.op(asm.asm_op(rcase), None, reply=r1)
 
